@@ -96,8 +96,15 @@ def _work(args):
             return out
         eng = res.engine
         axioms = eng.class_axioms()
+        t_start = time.time()
         for n, ob in enumerate(res.obligations):
-            solve.discharge(ob, axioms, use_cvc5=True, both=(tier == "thorough"))
+            # Once a violation of this function has been confirmed on the real code and more than two minutes of
+            # solver time went into it, the remaining obligations get a short budget: they cannot change the exit code
+            # any more, and a broken tree must not keep the check running for hours.  (Never triggers on a tree
+            # where everything is proved: nothing is confirmed there.)
+            confirmed = any(o.get("reproduced") for o in out["obligations"])
+            short = confirmed and time.time() - t_start > 120
+            solve.discharge(ob, axioms, use_cvc5=not short, both=(tier == "thorough" and not short), budget_ms=3000 if short else None)
             rec = {
                 "name": ob.name,
                 "kind": ob.kind,
